@@ -107,6 +107,33 @@ pub fn run(seed: u64, n: usize, scratch: &str, out: &str) -> serde_json::Value {
             violations.push(json!({"prop": "C14", "what": format!("{} path: expected a returned error, got {:?}", kind, a.first()), "known": null, "case": {"kind": kind}}));
         }
     }
+    // failure kinds spelled WITHOUT a final component ("..", ".", "/", "", "dir/..", "missing/.."), with a trailing
+    // slash or dot component, or relative to the current directory: still a returned error
+    let spelled: Vec<(&str, std::path::PathBuf)> = vec![
+        ("directory-dotdot", sub.join("..")), ("directory-dot", sub.join(".")), ("root", Path::new("/").to_path_buf()),
+        ("empty-path", Path::new("").to_path_buf()), ("dot", Path::new(".").to_path_buf()), ("dotdot", Path::new("..").to_path_buf()),
+        ("missing-dotdot", dir.join("nodir").join("..").join("nofile")), ("missing-dir-dotdot", dir.join("nodir").join("..")),
+        ("directory-trailing-slash", Path::new(&format!("{}/", sub.display())).to_path_buf()),
+        ("missing-trailing-slash", Path::new(&format!("{}/", dir.join("missing.txt").display())).to_path_buf()),
+        ("file-trailing-slash", Path::new(&format!("{}/", regular.display())).to_path_buf()),
+        ("file-dotdot", regular.join("..")), ("non-utf8-name-missing", dir.join(<std::ffi::OsStr as std::os::unix::ffi::OsStrExt>::from_bytes(b"caf\xe9.txt"))),
+    ];
+    for (kind, p) in spelled {
+        evals += 1;
+        *kinds.entry(kind.to_string()).or_insert(0u64) += 1;
+        let a = real_path(&p, &default_settings());
+        if !a.first().map(|l| l.starts_with("R ERR")).unwrap_or(false) {
+            violations.push(json!({"prop": "C14", "what": format!("{} path {:?}: expected a returned error, got {:?}", kind, p, a.first()), "known": null, "case": {"kind": kind, "path": format!("{:?}", p)}}));
+        }
+    }
+    // a regular file reached through spellings with dot components reads like the file
+    for (kind, p) in [("file-via-dot", dir.join(".").join("regular.txt")), ("file-via-subdir-dotdot", sub.join("..").join("regular.txt"))] {
+        evals += 1;
+        *kinds.entry(kind.to_string()).or_insert(0u64) += 1;
+        if p.exists() && real_path(&p, &default_settings()) != outcome_lines(&run_real(b"hello", &default_settings())) {
+            violations.push(json!({"prop": "C14", "what": format!("{}: a regular file reached through {:?} is not read like the file", kind, p), "known": null, "case": {"kind": kind}}));
+        }
+    }
     evals += 1;
     if real_path(&good_link, &default_settings()) != outcome_lines(&run_real(b"hello", &default_settings())) {
         violations.push(json!({"prop": "C14", "what": "a symlink to a regular file is not read like the file", "known": null, "case": {"kind": "symlink"}}));
